@@ -17,6 +17,10 @@ CHECKS = {
             "DESIGN.md 3/C02",
             "Generated search over data recipes x {check type, block/member size, 0-3 pre-filters, LZMA options, representable and non-representable dictionary sizes} x write partitions; oracle: the crate's own reader returns exactly the input, and the harness's own XZ/LZIP walker agrees on the total size. Checked and release builds. One recorded finding (BCJWriter receiving several writes) is excluded by signature and counted.",
             "The format walkers are harness code (cross-checked against liblzma in C03). Dictionaries above 64 MiB are not instantiated."),
+    "C03": ("exploration", "differential property-based testing against liblzma (in-process), both directions",
+            "DESIGN.md 3/C03",
+            "Generated search: every stream the crate writes (narrowed to what the reference can decode at all) must be accepted, fully consumed and decoded to the input by liblzma; every stream liblzma writes (presets, custom options with all match finders, filter chains, check types, multi-block via full flush and via the MT encoder with size fields, .lzma, raw LZMA2+filters, wrapped LZIP) must decode with the crate to the input.",
+            "liblzma 5.8 static is the trusted reference; no independent LZIP encoder exists in the sandbox (wrapped LZMA1 streams are used); the narrowing of ours->ref is listed in the evidence assumptions."),
 }
 
 NOT_YET = {
